@@ -24,4 +24,9 @@ CHECKS.update({
  'C19': _c('Every connected DAG of n<=3 (quick) / n<=4 (thorough) units with all port-count choices and every permutation of the unit list, larger n with minimal ports and fixed order lists, each also with 1-3 back-edges; Network.from_units on real units; oracle computed by an independent DFS on the unit/stream graph; rewire-then-build histories.', 'DESIGN.md section 3, C19 and 3b'),
  'C20': _c('Complete input grids for every separation helper named by the property (feeds over a dyadic flow alphabet, split vectors, K grids with forced chemicals, moisture targets, efficiencies, balance matrices) and histories that re-apply the helpers to their own outlets; per-chemical balance, non-negativity and target oracles.', 'DESIGN.md section 3, C20'),
 })
+
+CHECKS.update({
+ 'C01': _c('Complete grids of mix_from (receiver kind x 0-3 inlets from a menu of single/multi-phase templates over s/l/g/S/L x two property packages with re-ordered chemicals x dyadic flow vectors x receiver-among-inlets x energy balance), split_to, separate_out, copy_flow(remove) and scaling, plus BFS over histories of those operations on three streams with the chemicals lookup cache as part of the state; exact per-chemical balances against a dense CAS-keyed reference.', 'DESIGN.md section 3, C01'),
+ 'C10': _c('BFS over sequences of get/set with every key form (ID, alias, CAS, tuples, lists, groups, nested groups, ellipsis, phase pairs), cache floods that drive both lookup caches through eviction, cross-package operations that write into the shared cache, set_alias/define_group, on ChemicalIndexer and MaterialIndexer over packages of size 1-8; every lookup is compared with an own name table and with a freshly built indexer holding the same data.', 'DESIGN.md section 3, C10'),
+})
 NOT_APPLICABLE = {k: v for k, v in NOT_APPLICABLE.items() if k not in CHECKS}
